@@ -897,6 +897,7 @@ THEOREMS = (
     "tables_triplet_panner_continuousOn",
     "tables_triplet_panner_jump_bound",
     "tables_ngon_continuousOn",
+    "tables_tri_ngon_continuousOn",
     # the quad on the cone of its corners (closed-form root selection, C05's sign certificate)
     "continuousOn_of_unique_zero",
     "unit_root_unique",
@@ -924,8 +925,8 @@ class C12(Spec):
         "continuous on the cone of its corners under C05's sign certificate (quad_handle_continuousOn_cone_partial, "
         "tables_quad_continuousOn_cone_partial); NOT proved: the global statement for a whole layout's panner (quads are not inside "
         "the pasted panner: their acceptance set under the code's tolerances is not closed and their agreement with neighbours is "
-        "proved only given the roots), n-gons with the code's slack, the triplet/n-gon cross pairs assembled on the tables; "
-        "these are searched",
+        "proved only given the roots) and n-gons with the code's slack (tables_tri_ngon_continuousOn, the Triplet and VirtualNgon "
+        "regions of every nominal layout as one panner, is at slack 0); these are searched",
         "the combinatorial hypothesis of the pasting instances (MeetInSharedFace: the slack-0 cones of two cells meet only in a shared "
         "vertex / edge, shared positions on the same channel) is now DECIDED BY THE LEAN KERNEL on every run for the ten nominal "
         "layouts: harness/c12.py regenerates Gen/C12_Faces.lean from the real configured panner (triplet cells = Triplet regions and "
@@ -1132,7 +1133,9 @@ REGISTRY = dict(
     "Faces.faces_sound), hence tables_triplet_pairs_meet_in_faces (MeetInSharedFace for all pairs of Triplet regions, formerly "
     "checked by the harness), tables_triplet_panner_continuousOn, tables_triplet_panner_jump_bound (the Triplet regions of every "
     "nominal layout as a panner with the code's threshold: jumps < 2.2e-7; tripletTR_regions ties the list to the modelled "
-    "panner), tables_ngon_continuousOn (every n-gon of the tables at slack 0). "
+    "panner), tables_ngon_continuousOn (every n-gon of the tables at slack 0), tables_tri_ngon_continuousOn (the modelled "
+    "panner's own Triplet and VirtualNgon regions of every nominal layout, pasted into one panner at slack 0, continuous on the "
+    "union of their cones: MeetInOuterFace for every triplet cell against every n-gon cell comes from the certificate). "
     "Quads: continuousOn_of_unique_zero, unit_root_unique, axis_unique_root, quad_cone_continuousOn_partial, "
     "quad_handle_continuousOn_cone_partial, tables_quad_continuousOn_cone_partial: with the closed-form root selection and C05's "
     "sign certificate (quad_tables_ok) the selected pan value is THE root in [0,1] and QuadRegion.handle is continuous on the "
@@ -1140,8 +1143,7 @@ REGISTRY = dict(
     "NOT proved (searched): the global statement for a whole layout's panner - every nominal layout has QuadRegions, whose "
     "acceptance set under the code's tolerances is larger than the corner cone and not closed, and whose agreement with "
     "neighbours on shared edges is proved only given the roots (quad_two_valued_witness shows what can go wrong without the "
-    "sign certificate); the n-gon with the code's slack; the triplet/n-gon cross pairs assembled into one panner on the tables "
-    "(the certificate and Faces.faces_sound cover them); coverage is C05's.",
+    "sign certificate); the n-gon (and the panner of triplets + n-gons) with the code's slack -1e-11; coverage is C05's.",
     note="Model, driver and correspondence are C05's (re-run here). Table-level: Gen/C12_Faces.lean (shared rows + separating plane "
     "for every pair of triplet cells of the ten nominal configured panners, exact arithmetic) is regenerated from the real code "
     "and re-decided by the kernel (a pair without a strictly separating plane is a broken obligation naming the pair, and the "
